@@ -1535,6 +1535,11 @@ type ServerSession struct {
 	// via jsonrpc2.Connection.Cancel to avoid deadlocking on the jsonrpc2
 	// drain. See modelcontextprotocol/go-sdk#1160.
 	listenIDs []jsonrpc.ID
+	// closing is set by Close before it cancels listenIDs. A subscriptions/listen
+	// request dispatched after that (it was queued behind another handler, or
+	// arrived while Close was running) must not park: nothing would cancel it
+	// any more and Close would wait for it for ever.
+	closing bool
 }
 
 func (ss *ServerSession) updateState(mut func(*ServerSessionState)) {
@@ -1991,8 +1996,14 @@ func (ss *ServerSession) handle(ctx context.Context, req *jsonrpc.Request) (any,
 	// avoid deadlocking on the jsonrpc2 drain.
 	if req.Method == methodSubscriptionsListen {
 		ss.mu.Lock()
-		ss.listenIDs = append(ss.listenIDs, req.ID)
+		closing := ss.closing
+		if !closing {
+			ss.listenIDs = append(ss.listenIDs, req.ID)
+		}
 		ss.mu.Unlock()
+		if closing {
+			return nil, fmt.Errorf("%w: session is closing", jsonrpc2.ErrServerClosing)
+		}
 	}
 
 	res, err := handleReceive(ctx, ss, req)
@@ -2124,6 +2135,7 @@ func (ss *ServerSession) Close() error {
 	// on ctx.Done and would deadlock conn.Close (which waits for in-flight
 	// requests to drain).
 	ss.mu.Lock()
+	ss.closing = true
 	ids := ss.listenIDs
 	ss.listenIDs = nil
 	ss.mu.Unlock()
